@@ -733,12 +733,17 @@ impl Optimizer {
 
                 let uses_left = predicate_vars.iter().any(|v| left_vars.contains(v));
                 let uses_right = predicate_vars.iter().any(|v| right_vars.contains(v));
+                // A side may only receive the predicate if it binds every variable the
+                // predicate uses (the variable sets are not complete for every operator,
+                // e.g. an OPTIONAL MATCH below the join).
+                let all_left = predicate_vars.iter().all(|v| left_vars.contains(v));
+                let all_right = predicate_vars.iter().all(|v| right_vars.contains(v));
 
-                if uses_left && !uses_right {
+                if uses_left && all_left && !uses_right {
                     // Push to left side
                     join.left = Box::new(self.try_push_filter_into(predicate, *join.left));
                     LogicalOperator::Join(join)
-                } else if uses_right && !uses_left {
+                } else if uses_right && all_right && !uses_left {
                     // Push to right side
                     join.right = Box::new(self.try_push_filter_into(predicate, *join.right));
                     LogicalOperator::Join(join)
@@ -806,6 +811,10 @@ impl Optimizer {
                 Self::collect_output_variables_recursive(&proj.input, vars);
             }
             LogicalOperator::Join(join) => {
+                Self::collect_output_variables_recursive(&join.left, vars);
+                Self::collect_output_variables_recursive(&join.right, vars);
+            }
+            LogicalOperator::LeftJoin(join) => {
                 Self::collect_output_variables_recursive(&join.left, vars);
                 Self::collect_output_variables_recursive(&join.right, vars);
             }
